@@ -1,0 +1,131 @@
+//! Verification hooks (only compiled with `--cfg brood_verif`).
+//!
+//! Read-only structural dump of a `World` and a fork/join seam for the schedule runner. Nothing in
+//! here is reachable without the cfg flag.
+
+extern crate std;
+
+use alloc::vec::Vec;
+
+/// Plain-data image of one archetype table.
+#[derive(Clone, Debug, PartialEq, Eq)]
+pub struct ArchetypeDump {
+    /// The identifier bit set (one bit per registry position).
+    pub id_bytes: Vec<u8>,
+    /// Address of the archetype's own identifier buffer.
+    pub id_addr: usize,
+    /// Capacity of the identifier buffer.
+    pub id_cap: usize,
+    /// Shared row count.
+    pub length: usize,
+    /// Entity identifier column, `(index, generation)` per row.
+    pub entity_ids: Vec<(usize, u64)>,
+    /// Address and capacity of the entity identifier column.
+    pub entity_col: (usize, usize),
+    /// Address and capacity of each component column, in registry order.
+    pub columns: Vec<(usize, usize)>,
+}
+
+/// Plain-data image of one allocator slot.
+#[derive(Clone, Debug, PartialEq, Eq)]
+pub struct SlotDump {
+    /// Current generation.
+    pub generation: u64,
+    /// `Some((identifier buffer address, row))` when active.
+    pub location: Option<(usize, usize)>,
+}
+
+/// Plain-data image of a `World`'s entity bookkeeping.
+#[derive(Clone, Debug, PartialEq, Eq)]
+pub struct Dump {
+    /// Archetypes in table iteration order.
+    pub archetypes: Vec<ArchetypeDump>,
+    /// Number of entries in the archetype table.
+    pub table_len: usize,
+    /// Target identifier addresses of the `TypeId` lookup.
+    pub type_id_lookup: Vec<usize>,
+    /// `(key bytes, key address, value address)` of the identifier-bytes lookup.
+    pub foreign_lookup: Vec<(Vec<u8>, usize, usize)>,
+    /// Allocator slots.
+    pub slots: Vec<SlotDump>,
+    /// Free list, front first.
+    pub free: Vec<usize>,
+    /// `World::len`.
+    pub len: usize,
+}
+
+impl crate::entity::Identifier {
+    /// `(index, generation)`.
+    #[must_use]
+    pub fn verif_parts(&self) -> (usize, u64) {
+        (self.index, self.generation)
+    }
+
+    /// Builds an identifier from raw parts.
+    #[must_use]
+    pub fn verif_from_parts(index: usize, generation: u64) -> Self {
+        Self::new(index, generation)
+    }
+}
+
+/// Fork/join seam used by the schedule runner instead of `rayon::join`.
+pub mod shim {
+    use core::sync::atomic::{
+        AtomicUsize,
+        Ordering,
+    };
+
+    /// A handler receives both sides of a join, type erased. It must call each exactly once before
+    /// returning `true`, or call neither and return `false` (the shim then uses `rayon::join`).
+    pub type Handler = fn(&mut (dyn FnMut() + Send), &mut (dyn FnMut() + Send)) -> bool;
+
+    static HANDLER: AtomicUsize = AtomicUsize::new(0);
+
+    /// Installs (or removes) the process-wide handler.
+    pub fn set_handler(handler: Option<Handler>) {
+        HANDLER.store(handler.map_or(0, |h| h as usize), Ordering::SeqCst);
+    }
+
+    /// Drop-in replacement for `rayon::join`.
+    pub fn join<A, B, RA, RB>(oper_a: A, oper_b: B) -> (RA, RB)
+    where
+        A: FnOnce() -> RA + Send,
+        B: FnOnce() -> RB + Send,
+        RA: Send,
+        RB: Send,
+    {
+        let raw = HANDLER.load(Ordering::SeqCst);
+        if raw != 0 {
+            // SAFETY: `raw` was stored from a `Handler` in `set_handler`.
+            let handler: Handler = unsafe { core::mem::transmute::<usize, Handler>(raw) };
+            let mut oper_a = Some(oper_a);
+            let mut oper_b = Some(oper_b);
+            let mut result_a = None;
+            let mut result_b = None;
+            let handled = {
+                let mut run_a = || {
+                    if let Some(f) = oper_a.take() {
+                        result_a = Some(f());
+                    }
+                };
+                let mut run_b = || {
+                    if let Some(f) = oper_b.take() {
+                        result_b = Some(f());
+                    }
+                };
+                handler(&mut run_a, &mut run_b)
+            };
+            if handled {
+                match (result_a, result_b) {
+                    (Some(a), Some(b)) => return (a, b),
+                    _ => panic!("brood_verif: join handler skipped a closure"),
+                }
+            }
+            match (oper_a, oper_b) {
+                (Some(a), Some(b)) => return ::rayon::join(a, b),
+                _ => panic!("brood_verif: join handler declined after running a closure"),
+            }
+        }
+        ::rayon::join(oper_a, oper_b)
+    }
+}
